@@ -187,9 +187,33 @@ theorem Low.low' {t : T} {q : List Nat} {j : Nat} {c : T} (h : Low t q j c) : Lo
   obtain ⟨S, e, h1, h2, h3, h4⟩ := h
   exact ⟨S, e, h1, h2, h3, by split at h4 <;> omega⟩
 
+/-- every proper subtree misses a tip of the tree (true when the root has at least two children,
+    and when the root is itself a tip) -/
+def ProperOutside (t : T) : Prop :=
+  ∀ (q : List Nat) (S : T), q ≠ [] → subAt q t = some S → S.kids ≠ [] → ∃ z, z ∈ t.tipNames ∧ z ∉ leavesL S.kids
+
+theorem properOutside_of_two (t : T) (hu : t.tipNames.Nodup) (hk : 2 ≤ t.kids.length) : ProperOutside t := by
+  intro q S hq hs hne
+  have hnd : (leavesL t.kids).Nodup := by
+    unfold T.tipNames at hu
+    exact (List.nodup_append.mp hu).2.1
+  obtain ⟨z, hz1, hz2⟩ := outside_nonempty t S q hq hs hne hk hnd
+  exact ⟨z, leavesL_sub_tipNames t z hz1, hz2⟩
+
+/-- the root is a tip: its own name is outside every subtree below it -/
+theorem properOutside_of_tipRoot (t : T) (hu : t.tipNames.Nodup) (hk : t.kids.length = 1) : ProperOutside t := by
+  intro q S _ hs hne
+  refine ⟨t.name, ?_, ?_⟩
+  · simp [T.tipNames, hk]
+  · intro hin
+    have hsub := (sub_leaves_sublist q t S hs hne).subset hin
+    unfold T.tipNames at hu
+    simp only [hk, beq_self_eq_true, if_true] at hu
+    exact (List.nodup_append.mp hu).2.2 t.name (by simp) t.name hsub rfl
+
 /-- Two different branches whose lower ends have two children define different (canonical)
     splits — unless they are the two branches at the root of a rooted tree. -/
-theorem low_ne' (t : T) (hu : t.tipNames.Nodup) (htk : 2 ≤ t.kids.length) (q1 q2 : List Nat) (j1 j2 : Nat) (c1 c2 : T)
+theorem low_ne_po (t : T) (hu : t.tipNames.Nodup) (hpo : ProperOutside t) (q1 q2 : List Nat) (j1 j2 : Nat) (c1 c2 : T)
     (h1 : Low' t q1 j1 c1) (h2 : Low' t q2 j2 c2) (hne : ¬(q1 = q2 ∧ j1 = j2))
     (hroot3 : q1 = [] → q2 = [] → t.kids.length = 3) :
     canonSide t.tipNames (leavesL c1.kids) ≠ canonSide t.tipNames (leavesL c2.kids) := by
@@ -300,8 +324,8 @@ theorem low_ne' (t : T) (hu : t.tipNames.Nodup) (htk : 2 ≤ t.kids.length) (q1 
               exact kids_disjoint M.kids i b _ _ _ _ hib hki hB hndM z hz (hc2B z hz2)
           · -- an inner node with exactly these two children: a tip outside it
             have hMne : M.kids ≠ [] := by intro h0; rw [h0] at hA; simp at hA
-            obtain ⟨z, hz1, hz2⟩ := outside_nonempty t M W hW hM hMne htk hnd
-            refine ⟨z, leavesL_sub_tipNames t z hz1, ?_, ?_⟩
+            obtain ⟨z, hz1, hz2⟩ := hpo W M hW hM hMne
+            refine ⟨z, hz1, ?_, ?_⟩
             · intro h; exact hz2 (kid_leaves_subset M a ea _ hA z (hc1A z h))
             · intro h; exact hz2 (kid_leaves_subset M b eb _ hB z (hc2B z h))
         · -- c2 is strictly below child `b`: the node above it has another child there
@@ -348,6 +372,12 @@ theorem low_ne' (t : T) (hu : t.tipNames.Nodup) (htk : 2 ≤ t.kids.length) (q1 
         refine ⟨z, hAall z hzA, ?_, ?_⟩
         · intro h; exact hz2 (by rw [leaves_of_kids_ne hc1ne]; exact h)
         · intro h; exact hdisj z hzA (hc2B z h)
+
+theorem low_ne' (t : T) (hu : t.tipNames.Nodup) (htk : 2 ≤ t.kids.length) (q1 q2 : List Nat) (j1 j2 : Nat) (c1 c2 : T)
+    (h1 : Low' t q1 j1 c1) (h2 : Low' t q2 j2 c2) (hne : ¬(q1 = q2 ∧ j1 = j2))
+    (hroot3 : q1 = [] → q2 = [] → t.kids.length = 3) :
+    canonSide t.tipNames (leavesL c1.kids) ≠ canonSide t.tipNames (leavesL c2.kids) :=
+  low_ne_po t hu (properOutside_of_two t hu htk) q1 q2 j1 j2 c1 c2 h1 h2 hne hroot3
 
 /-- Two different branches both of whose ends have three neighbours define different splits. -/
 theorem low_ne (t : T) (hu : t.tipNames.Nodup) (htk : 2 ≤ t.kids.length) (q1 q2 : List Nat) (j1 j2 : Nat) (c1 c2 : T)
